@@ -82,7 +82,7 @@ class Lab:
         op = o["op"]
         animated = op not in ("render", "str", "draw_still")
         p = self.cls(2 if animated or op == "draw_still" else 1)
-        if o["fail"] in ("exc", "stop"):
+        if o["fail"] in ("exc", "stop", "kbrender"):
             p.fail_at = o["k"] or 1
             p.fail_kind = o["fail"]
         start = len(self.log)
@@ -106,13 +106,17 @@ class Lab:
                     p.draw(loops=o["loops"], cache=o["cache"], padding=ExactPadding())
                 elif op.startswith("iter_"):
                     it = iter(p)
-                    self._consume(it, op.split("_")[1], o["k"])
-                    del it
+                    try:
+                        self._consume(it, op.split("_")[1], o["k"])
+                    finally:
+                        del it  # the caller drops its reference, also when an exception escapes
                 elif op.startswith("owned_"):
                     kept = p._get_render_data_(iteration=True)
                     it = RenderIterator._from_render_data_(p, kept, finalize=False)
-                    self._consume(it, op.split("_")[1], o["k"])
-                    del it
+                    try:
+                        self._consume(it, op.split("_")[1], o["k"])
+                    finally:
+                        del it
             except BaseException as e:  # noqa: BLE001 - the class is the observation
                 outcome = type(e).__name__
         finally:
@@ -157,6 +161,9 @@ def expected_outcome(o):
         return "ok"
     if f == "finfail":
         return "FinalizerError"
+    if f == "kbrender":
+        # Ctrl-C while a frame is being rendered: swallowed by animations, propagated otherwise
+        return "ok" if o["op"] == "draw_anim" else "KeyboardInterrupt"
     if f == "stop":
         return "StopDefiniteIterationError"
     if f == "interrupt":
